@@ -113,11 +113,14 @@ def one_run(case):
     return digest_outcome(outcome_canon(st, payload))
 
 
-def make_case(seed, k):
+def make_case(seed, k, variant=None):
     rng = random.Random(f"c07/{seed}/{k}")
     names = universe.opt_names()
     opt = names[k % len(names)]
-    cfg, klass = universe.make_config(rng, opt, perturbed=rng.random() < 0.2)
+    cfg, klass = universe.make_config(rng, opt, perturbed=rng.random() < 0.3)
+    if variant is not None:     # one optional parameter at a non-default value (non-default algorithm branches)
+        opt, cfg = variant[0], dict(variant[1], max_cycles=rng.choice([2, 3, 5]), fitness_error=None)
+        klass = "optional-variant"
     kind = rng.choice(["continuous", "continuous", "multiobjective", "mixed", "discrete", "binary", "permutation", "discrete-multi"])
     spec = universe.make_spec(rng, kind=kind)
     spec["seed"] = rng.choice(SEEDS) if rng.random() < 0.35 else rng.randint(0, 2 ** 32 - 1)
@@ -157,6 +160,9 @@ def check(prop, tier, seed):
     per_opt = 4 if tier == "quick" else 40
     n = 84 * per_opt
     cases = [make_case(seed, k) for k in range(n)]
+    for rep_ in range(1 if tier == "quick" else 6):
+        cases += [make_case(seed, 100000 + 1000 * rep_ + j, variant=v) for j, v in enumerate(universe.all_optional_variants())]
+    n = len(cases)
     items_a = [{"k": k, "phase": "A", "case": c} for k, c in enumerate(cases)]
     res_a = runner.run_parallel("pvmon.props.c07", "work", items_a, {})
     order = list(range(n))
